@@ -1020,7 +1020,9 @@ def check_sighash_partition(chk, F):
         key = "%s/%s" % (ik, sub)
         payload = Adt(BK, "Fullkey", {"0": Term("pk")}) if ik == "PublicKey" else ms(Term("node"))
         inner = Adt(INNER, ik, {"0": payload, "1": Adt(PKT if ik == "PublicKey" else SCT, sub, {})})
-        it = Adt(INTERP, "Interpreter", {"inner": inner, "stack": Term("stack"), "script_code": some(Term("script_code")),
+        # what from_txdata stores: the script code, except for a taproot key spend, which has none
+        code = NONE if (ik, sub) == ("PublicKey", "Tr") else some(Term("script_code"))
+        it = Adt(INTERP, "Interpreter", {"inner": inner, "stack": Term("stack"), "script_code": code,
                                          "sequence": Term("seq"), "lock_time": Term("lt")})
         got = {f: m.call_path(p, [it]) for f, p in paths.items()}
         want = {f: f == flavour for f in paths}
@@ -1039,6 +1041,15 @@ def check_sighash_partition(chk, F):
             except Unsupported as e:
                 chk.fail(R, "unanalysable:verify_sig|%s|%s" % (key, pair_kind), "unanalysable: %s" % e, where=e.where,
                          kind="unanalysable")
+                continue
+            except Panic as e:
+                chk.fail(R, "refuse|%s|%s" % (key, pair_kind), "verify_sig panics on a %s signature for %s instead of refusing it: %s"
+                         % (pair_kind, key, str(e)[:160]), where="src/interpreter/mod.rs")
+                continue
+            if any(isinstance(val, tuple) and val and val[0] == "panic" for _, val in res):
+                chk.fail(R, "refuse|%s|%s" % (key, pair_kind), "verify_sig panics on a %s signature for %s instead of refusing it: %r"
+                         % (pair_kind, key, [val for _, val in res if isinstance(val, tuple) and val and val[0] == "panic"][0]),
+                         where="src/interpreter/mod.rs")
                 continue
             used = set()
             only_false = True
